@@ -534,7 +534,7 @@ func (g *gen) stmts(n int, budget int) {
 }
 
 func (g *gen) stmt(budget int) {
-	kind := g.draw(0, 24, "stmt")
+	kind := g.draw(0, 25, "stmt")
 	as := g.assignable()
 	switch {
 	case kind <= 5 && len(as) > 0: // plain assignment
@@ -632,6 +632,8 @@ func (g *gen) stmt(budget int) {
 		g.iterateStmt()
 	case kind == 19 && len(g.arrays) > 0:
 		g.guardedIndex()
+	case kind == 25 && len(g.consts) > 0:
+		g.constOpStmt()
 	case kind == 23 && budget > 0 && !g.inIter:
 		g.deepBreakLoop(budget - 1)
 	case kind == 24 && !g.impure && len(g.helps) > 0 && g.chance(30, "pureimpure"):
@@ -744,6 +746,63 @@ func (g *gen) countedLoop(budget int) {
 	delete(g.loopVars, idx.name)
 	g.depth--
 	g.line("}")
+}
+
+// constOpStmt assigns "K op x" or "x op K" for a named typed constant K and every
+// binary operator that accepts it (the code generator treats constant operands
+// specially: literal suffixes, casts, folded shifts).
+func (g *gen) constOpStmt() {
+	// the destination first (fields preferred: they are observable through the getters), then a constant of its width
+	var fields, locals []variable
+	for _, v := range g.assignable() {
+		if v.max.Cmp(typeMax(v.width)) == 0 {
+			if strings.HasPrefix(v.name, "this.") {
+				fields = append(fields, v)
+			} else {
+				locals = append(locals, v)
+			}
+		}
+	}
+	dst := fields
+	if len(dst) == 0 || (len(locals) > 0 && g.chance(30, "colocal")) {
+		dst = locals
+	}
+	if len(dst) == 0 {
+		return
+	}
+	v := dst[g.draw(0, len(dst)-1, "codst")]
+	var ks []variable
+	for _, k := range g.consts {
+		if k.width == v.width {
+			ks = append(ks, k)
+		}
+	}
+	x, ok := g.simpleRecv(v.width)
+	if len(ks) == 0 || !ok {
+		return
+	}
+	k := ks[g.draw(0, len(ks)-1, "cok")]
+	sh, _ := g.shiftAmount(k.width)
+	if sh == "0" {
+		return
+	}
+	var forms []string
+	forms = append(forms,
+		fmt.Sprintf("%s ~mod+ %s", k.name, x), fmt.Sprintf("%s ~mod- %s", k.name, x), fmt.Sprintf("%s ~mod- %s", x, k.name),
+		fmt.Sprintf("%s ~mod* %s", k.name, x), fmt.Sprintf("%s ~sat+ %s", k.name, x), fmt.Sprintf("%s ~sat- %s", k.name, x),
+		fmt.Sprintf("%s ~sat- %s", x, k.name), fmt.Sprintf("%s & %s", k.name, x), fmt.Sprintf("%s | %s", k.name, x), fmt.Sprintf("%s ^ %s", x, k.name),
+		fmt.Sprintf("%s >> %s", k.name, sh))
+	if !g.o.excluded("K4-modshl") {
+		forms = append(forms, fmt.Sprintf("%s ~mod<< %s", k.name, sh), fmt.Sprintf("%s ~mod<< %s", k.name, sh))
+	}
+	if k.max.Sign() > 0 {
+		forms = append(forms, fmt.Sprintf("%s %% %s", x, k.name), fmt.Sprintf("%s / %s", x, k.name))
+	}
+	e := forms[g.draw(0, len(forms)-1, "coform")]
+	if mentions(e, v.name) && g.o.Exclude["K5-self-assign-fact"] {
+		return
+	}
+	g.line("%s = %s", v.name, e)
 }
 
 // guardedIndex emits an array access whose index is in range only because of
@@ -1474,17 +1533,25 @@ func Gen(t *rapid.T, pkg string, o *Options) Prog {
 	g := &gen{t: t, o: o}
 	w := &g.b
 	fmt.Fprintf(w, "pub status \"#bad\"\n\n")
-	// named scalar constants
-	for i, nk := 0, g.draw(0, 3, "nconsts"); i < nk; i++ {
-		width := []int{8, 16, 32, 64, 64}[g.draw(0, 4, "kw")]
-		lim := typeMax(width)
-		if g.chance(60, "ksmall") {
-			lim = minBig(lim, big.NewInt(0xFFFF))
+	// named scalar constants: one per width (most of the time), plus up to two more
+	{
+		var widths []int
+		if g.chance(75, "kall") {
+			widths = []int{8, 16, 32, 64}
 		}
-		v := g.constant(lim)
-		name := fmt.Sprintf("K%d", i)
-		fmt.Fprintf(w, "pri const %s : %s = %s\n\n", name, typeName(width), hex(v))
-		g.consts = append(g.consts, variable{name: name, width: width, max: v})
+		for i, nk := 0, g.draw(0, 2, "nconsts"); i < nk; i++ {
+			widths = append(widths, []int{8, 16, 32, 64, 64}[g.draw(0, 4, "kw")])
+		}
+		for i, width := range widths {
+			lim := typeMax(width)
+			if g.chance(60, "ksmall") {
+				lim = minBig(lim, big.NewInt(0xFFFF))
+			}
+			v := g.constant(lim)
+			name := fmt.Sprintf("K%d", i)
+			fmt.Fprintf(w, "pri const %s : %s = %s\n\n", name, typeName(width), hex(v))
+			g.consts = append(g.consts, variable{name: name, width: width, max: v})
+		}
 	}
 	// tables
 	for i := 0; i < g.draw(0, 2, "ntables"); i++ {
@@ -1624,10 +1691,32 @@ func Gen(t *rapid.T, pkg string, o *Options) Prog {
 		fmt.Fprintf(w, "}\n\n")
 	}
 	// a public setter with a refined parameter (run-time argument check)
+	var setters []string
 	for i, f := range g.fields {
 		if f.max.Cmp(typeMax(f.width)) != 0 && g.chance(60, "setter") {
 			fmt.Fprintf(w, "pub func foo.set_f%d!(v: %s[..= %s]) {\n    this.f%d = args.v\n}\n\n", i, typeName(f.width), hex(f.max), i)
+			setters = append(setters, fmt.Sprintf("set_f%d", i))
 		}
+	}
+	// public pure methods with a body (observable state must not change when they are called); with some
+	// probability one contains a bare call of an impure method: a near miss that the tree must reject
+	for i, nc := 0, g.draw(0, 2, "ncalc"); i < nc; i++ {
+		fmt.Fprintf(w, "pub func foo.calc_%d() base.u32 {\n", i)
+		g.startFunc(false, false, nil)
+		g.retZero = "return 0"
+		g.stmts(g.draw(1, 5, "ncalcst"), 1)
+		if g.chance(20, "calcimpure") {
+			switch {
+			case len(g.helps) > 0 && g.chance(60, "calchelp"):
+				e, _ := g.expr(32, typeMax(32), 1)
+				g.line("this.%s!(a: %s)", g.helps[g.draw(0, len(g.helps)-1, "calch")], e)
+			case len(setters) > 0:
+				g.line("this.%s!(v: 0)", setters[g.draw(0, len(setters)-1, "calcs")])
+			}
+		}
+		e, _ := g.expr(32, typeMax(32), 3)
+		g.line("return %s", e)
+		fmt.Fprintf(w, "}\n\n")
 	}
 	// the public coroutine: an opcode interpreter over the source
 	fmt.Fprintf(w, "pub func foo.run?(dst: base.io_writer, src: base.io_reader) {\n")
